@@ -3,8 +3,10 @@ package main
 import (
 	"bytes"
 	"go/ast"
+	"go/constant"
 	"go/printer"
 	"go/token"
+	"go/types"
 	"sort"
 	"strings"
 	"unicode"
@@ -140,6 +142,19 @@ func renderNode(sb *strings.Builder, fset *token.FileSet, n ast.Node, d *duality
 			sb.WriteString(strings.Join(ops, " "+op.String()+" "))
 			break
 		}
+		if op == token.EQL || op == token.NEQ {
+			// a comparison with a named boolean constant (where == before, with `before side = false`): the operand itself or
+			// its negation, so that the two values of a two-valued direction parameter are each other's complement
+			if val, other, ok := boolConstOperand(x, d); ok {
+				o := render(fset, other, d)
+				if val == (op == token.EQL) {
+					sb.WriteString(o)
+				} else {
+					sb.WriteString(negateCond(o))
+				}
+				break
+			}
+		}
 		renderNode(sb, fset, x.X, d)
 		sb.WriteString(" " + op.String() + " ")
 		renderNode(sb, fset, x.Y, d)
@@ -164,6 +179,7 @@ func renderNode(sb *strings.Builder, fset *token.FileSet, n ast.Node, d *duality
 			if ps, ok := astFuncParams[fname]; ok && len(ps) == len(args) {
 				perm := make([]ast.Expr, len(args))
 				copy(perm, args)
+				named := false
 				for i, pi := range ps {
 					dn := d.ident(pi)
 					if dn == pi {
@@ -172,7 +188,15 @@ func renderNode(sb *strings.Builder, fset *token.FileSet, n ast.Node, d *duality
 					for j, pj := range ps {
 						if pj == dn {
 							perm[i] = args[j]
+							named = true
 						}
+					}
+				}
+				if !named {
+					// a helper that is its own mirror image with two parameters exchanged (link(a, b): a.next = b; b.prev = a
+					// - under prev<->next that is link(b, a)): the mirror image of a call passes those two arguments swapped
+					if i, j, ok := dualSwapParams(fset, fname, d); ok {
+						perm[i], perm[j] = args[j], args[i]
 					}
 				}
 				args = perm
@@ -275,10 +299,14 @@ func collectAtoms(fset *token.FileSet, n ast.Node, d *duality, ctx []string, out
 			collectAtoms(fset, x.Init, d, ctx, out)
 		}
 		cond := render(fset, x.Cond, d)
-		emit("if " + cond)
+		if inner, neg := strippedNeg(cond); neg {
+			emit("if " + inner) // the branch point; the polarity is in the context of what is nested under it
+		} else {
+			emit("if " + cond)
+		}
 		collectAtoms(fset, x.Body, d, append(append([]string{}, ctx...), cond), out)
 		if x.Else != nil {
-			collectAtoms(fset, x.Else, d, append(append([]string{}, ctx...), "!("+cond+")"), out)
+			collectAtoms(fset, x.Else, d, append(append([]string{}, ctx...), negateCond(cond)), out)
 		}
 	case *ast.ForStmt:
 		c := "for " + render(fset, x.Cond, d)
@@ -365,12 +393,119 @@ func multisetDiff(a, b []string) (onlyA, onlyB []string) {
 // astIdentAlias: identifier translation applied while rendering source (set per package by useAstAliases).
 var astIdentAlias map[string]string
 
+// astPkgScope: package scope of the package being rendered (named boolean constants).
+var astPkgScope *types.Scope
+
+// boolConstOperand: one operand of the comparison is an identifier that - after the duality renaming - names a boolean
+// constant of the package; returns its value and the other operand.
+func boolConstOperand(x *ast.BinaryExpr, d *duality) (val bool, other ast.Expr, ok bool) {
+	if astPkgScope == nil {
+		return false, nil, false
+	}
+	try := func(e ast.Expr) (bool, bool) {
+		id, isID := e.(*ast.Ident)
+		if !isID {
+			return false, false
+		}
+		name := id.Name
+		if d != nil {
+			name = d.ident(name)
+		}
+		cn, isC := astPkgScope.Lookup(name).(*types.Const)
+		if !isC || cn.Val().Kind() != constant.Bool {
+			return false, false
+		}
+		return constant.BoolVal(cn.Val()), true
+	}
+	if v, ok := try(x.Y); ok {
+		return v, x.X, true
+	}
+	if v, ok := try(x.X); ok {
+		return v, x.Y, true
+	}
+	return false, nil, false
+}
+
+// strippedNeg: cond is "!(inner)" with the parentheses matching.
+func strippedNeg(cond string) (string, bool) {
+	if !strings.HasPrefix(cond, "!(") || !strings.HasSuffix(cond, ")") {
+		return cond, false
+	}
+	depth := 0
+	for i, r := range cond[1:] {
+		switch r {
+		case '(':
+			depth++
+		case ')':
+			depth--
+			if depth == 0 && i != len(cond)-2 {
+				return cond, false
+			}
+		}
+	}
+	return cond[2 : len(cond)-1], true
+}
+
+func negateCond(cond string) string {
+	if inner, ok := strippedNeg(cond); ok {
+		return inner
+	}
+	return "!(" + cond + ")"
+}
+
+// astFuncDecls: the declarations behind astFuncParams (same keys).
+var astFuncDecls map[string]*ast.FuncDecl
+
+var dualSwapMemo = map[string][3]int{}
+
+// dualSwapParams: the unexported helper name changes under the duality d, but is unchanged under d combined with the
+// exchange of two of its parameters.
+func dualSwapParams(fset *token.FileSet, name string, d *duality) (int, int, bool) {
+	fd := astFuncDecls[name]
+	ps := astFuncParams[name]
+	if fd == nil || fd.Body == nil || len(ps) < 2 {
+		return 0, 0, false
+	}
+	key := fset.Position(fd.Pos()).String()
+	if m, ok := dualSwapMemo[key]; ok {
+		return m[0], m[1], m[2] == 1
+	}
+	dualSwapMemo[key] = [3]int{0, 0, 0} // (also guards against recursion through a self-call)
+	plain := funcAtoms(fset, fd, nil)
+	if oa, ob := multisetDiff(plain, funcAtoms(fset, fd, d)); len(oa) == 0 && len(ob) == 0 {
+		return 0, 0, false // self-dual as it stands
+	}
+	for i := 0; i < len(ps); i++ {
+		for j := i + 1; j < len(ps); j++ {
+			d2 := &duality{words: map[string]string{}, ops: d.ops, keep: d.keep}
+			for k, v := range d.words {
+				d2.words[k] = v
+			}
+			li, lj := strings.ToLower(ps[i]), strings.ToLower(ps[j])
+			if _, clash := d2.words[li]; clash {
+				continue
+			}
+			if _, clash := d2.words[lj]; clash {
+				continue
+			}
+			d2.words[li], d2.words[lj] = lj, li
+			if oa, ob := multisetDiff(plain, funcAtoms(fset, fd, d2)); len(oa) == 0 && len(ob) == 0 {
+				dualSwapMemo[key] = [3]int{i, j, 1}
+				return i, j, true
+			}
+		}
+	}
+	return 0, 0, false
+}
+
 // astFuncParams: parameter names of the unexported functions / methods of the package being rendered (by simple name).
 var astFuncParams map[string][]string
 
 func useAstAliases(c *Ctx, fnKey string) {
 	astIdentAlias = nil
+	astPkgScope = nil
 	astFuncParams = map[string][]string{}
+	astFuncDecls = map[string]*ast.FuncDecl{}
 	best := ""
 	for rel := range c.Pkgs {
 		if strings.HasPrefix(fnKey, rel+".") && len(rel) > len(best) {
@@ -389,12 +524,17 @@ func useAstAliases(c *Ctx, fnKey string) {
 		}
 		if _, dup := astFuncParams[fd.Name.Name]; dup {
 			astFuncParams[fd.Name.Name] = nil // ambiguous simple name
+			astFuncDecls[fd.Name.Name] = nil
 		} else {
 			astFuncParams[fd.Name.Name] = ps
+			astFuncDecls[fd.Name.Name] = fd
 		}
 	}
 	if curLayout != nil {
 		astIdentAlias = curLayout.idents[best]
+	}
+	if p := c.Pkgs[best]; p != nil && p.Types != nil {
+		astPkgScope = p.Types.Scope()
 	}
 }
 
